@@ -58,22 +58,27 @@ func c2Entry(c *Ctx) {
 	name := fn.String()
 	// locate sites
 	var sites []emitSite
+	bd := func(v ssa.Value) string {
+		var d string
+		Bound(func() { d = Desc(v) })
+		return d
+	}
 	payloadAfter := func(key ssa.Instruction, want string) bool {
 		// some call reachable right after key-emission in the same guarded region takes the payload
 		found := false
-		for _, cl := range Calls(fn) {
+		for _, cl := range CallsDeep(fn) {
 			if cl == key || !Dominates(key, cl) {
 				continue
 			}
 			for _, a := range Args(cl) {
-				if Desc(a) == want {
+				if bd(a) == want {
 					found = true
 				}
 			}
 		}
 		return found
 	}
-	for _, cl := range Calls(fn) {
+	for _, cl := range CallsDeep(fn) {
 		f := CalleeFunc(cl)
 		if f == nil {
 			continue
@@ -84,7 +89,7 @@ func c2Entry(c *Ctx) {
 			if len(args) < 2 {
 				continue
 			}
-			k := normCfg(Desc(args[1]))
+			k := normCfg(bd(args[1]))
 			if !strings.HasPrefix(k, "cfg.") || !strings.HasSuffix(k, "Key") {
 				continue
 			}
@@ -114,18 +119,20 @@ func c2Entry(c *Ctx) {
 			if f.Name() == "addKey" {
 				okP = payloadAfter(cl, payload)
 			} else {
-				okP = Desc(args[2]) == payload
+				okP = bd(args[2]) == payload
 			}
 			c.Check(okP, "R2.1", name, "payload/"+part, cl.Pos(), "the %sKey is followed by the entry's own %s", part, payload)
 			sites = append(sites, s)
 		case "addFields":
 			sites = append(sites, emitSite{name: "fields", instr: cl, want: []string{}})
-			c.Check(Desc(args[0]) == "clone(enc)" && Strip(args[1]) == ssa.Value(fn.Params[2]), "R2.1", name, "payload/fields", cl.Pos(), "call-site fields are added to the per-call clone")
+			c.Check(Desc(args[0]) == "clone("+fn.Params[0].Name()+")" && Strip(args[1]) == ssa.Value(fn.Params[2]), "R2.1", name, "payload/fields", cl.Pos(), "call-site fields are added to the per-call clone")
 		case "closeOpenNamespaces":
-			sites = append(sites, emitSite{name: "close-namespaces", instr: cl, want: []string{}})
+			if cl.Parent() == fn {
+				sites = append(sites, emitSite{name: "close-namespaces", instr: cl, want: []string{}})
+			}
 		case "Write":
-			if len(args) == 2 && Desc(args[1]) == "Bytes(enc.buf)" {
-				sites = append(sites, emitSite{name: "context", instr: cl, want: []string{"Len(enc.buf) > 0"}})
+			if len(args) == 2 && Desc(args[1]) == "Bytes("+fn.Params[0].Name()+".buf)" {
+				sites = append(sites, emitSite{name: "context", instr: cl, want: []string{"Len(" + fn.Params[0].Name() + ".buf) > 0"}})
 			}
 		}
 	}
@@ -144,10 +151,12 @@ func c2Entry(c *Ctx) {
 			continue
 		}
 		var got []string
-		for _, a := range AtomStrings(Guards(s.instr)) {
-			got = append(got, normCfg(a))
-		}
-		sort.Strings(got)
+		Bound(func() {
+			for _, a := range AtomStrings(Guards(s.instr)) {
+				got = append(got, normCfg(a))
+			}
+		})
+		got = uniqSorted(got)
 		want := append([]string{}, s.want...)
 		sort.Strings(want)
 		c.Check(strings.Join(got, " ∧ ") == strings.Join(want, " ∧ "), "R2.1", name, "guards/"+n, s.instr.Pos(), "%s is emitted exactly under {%s} (the property's omission rule); found {%s}", n, strings.Join(want, ", "), strings.Join(got, ", "))
